@@ -1,6 +1,8 @@
 package vc
 
 import (
+	"fmt"
+	"os"
 	"go/types"
 	"strings"
 
@@ -13,6 +15,8 @@ type modSet struct {
 	excepts   [][]string // for every havoc-all callee: the items it preserves
 	exceptPkg []string
 	classes   map[string]bool
+	// cell classes named only because of writes to local variables: class -> the allocs (nil entry: unresolved free variable)
+	cellAllocs map[string][]*ssa.Alloc
 	allocs    map[*ssa.Alloc]bool
 	allCells  bool
 	ghosts    map[string]bool
@@ -21,6 +25,36 @@ type modSet struct {
 
 func newModSet() *modSet {
 	return &modSet{classes: map[string]bool{}, allocs: map[*ssa.Alloc]bool{}, ghosts: map[string]bool{}}
+}
+
+func (m *modSet) noteCell(class string, a *ssa.Alloc) {
+	if m.cellAllocs == nil {
+		m.cellAllocs = map[string][]*ssa.Alloc{}
+	}
+	m.cellAllocs[class] = append(m.cellAllocs[class], a)
+}
+
+// localOnlyCells: the cell classes in the set that are there only because of writes to variables of the running invocation
+// (declared in fn itself or in a function executed within it - not in a lexically enclosing function, whose variables
+// exist before fn is called). Such writes cannot touch an object that existed when fn was entered.
+func (m *modSet) localOnlyCells(fn *ssa.Function) map[string]bool {
+	outer := map[*ssa.Function]bool{}
+	for p := fn.Parent(); p != nil; p = p.Parent() {
+		outer[p] = true
+	}
+	res := map[string]bool{}
+	for c, as := range m.cellAllocs {
+		ok := true
+		for _, a := range as {
+			if a == nil || outer[a.Parent()] {
+				ok = false
+			}
+		}
+		if ok {
+			res[c] = true
+		}
+	}
+	return res
 }
 
 // rootAlloc resolves an address value to the Alloc it denotes (through free variables of closures).
@@ -58,12 +92,16 @@ func addrClass(addr ssa.Value, m *modSet) {
 		if r := rootAlloc(a); r != nil {
 			m.allocs[r] = true
 			if !allocPromotable(r) {
-				m.classes[cellClass(r.Type().(*types.Pointer).Elem())] = true
+				cc := cellClass(r.Type().(*types.Pointer).Elem())
+				m.classes[cc] = true
+				m.noteCell(cc, r)
 			}
 			return
 		}
 		if fv, ok := a.(*ssa.FreeVar); ok {
-			m.classes[cellClass(fv.Type().(*types.Pointer).Elem())] = true
+			cc := cellClass(fv.Type().(*types.Pointer).Elem())
+			m.classes[cc] = true
+			m.noteCell(cc, nil)
 		}
 	case *ssa.FieldAddr:
 		// walk nested value structs up to the pointer base
@@ -117,6 +155,7 @@ func addrClass(addr ssa.Value, m *modSet) {
 			})
 		} else {
 			m.classes[cellClass(pt.Elem())] = true
+			m.noteCell(cellClass(pt.Elem()), nil)
 		}
 	}
 }
@@ -142,6 +181,7 @@ func (u *Unit) instrMods(ins ssa.Instruction, m *modSet, seen map[*ssa.Function]
 				m.classes[elemClass(et.Elem())] = true
 			default:
 				m.classes[cellClass(elem)] = true
+				m.noteCell(cellClass(elem), ins)
 			}
 		}
 	case *ssa.MakeMap:
@@ -234,7 +274,19 @@ func (u *Unit) callMods(c *ssa.CallCommon, m *modSet, seen map[*ssa.Function]boo
 			return
 		}
 	}
+	// call of a local function variable that only ever holds closures written in this function: the closures' write sets
+	if name == "" {
+		if fns := localClosureTargets(c); len(fns) > 0 {
+			for _, fn := range fns {
+				u.fnMods(fn, m, seen)
+			}
+			return
+		}
+	}
 	// dynamic call of a captured closure variable: resolved at execution time; conservatively everything
+	if os.Getenv("VERIF_DEBUG") != "" {
+		fmt.Fprintf(os.Stderr, "mods-debug %s: unresolved call %s (%T, short %s, dyn %v) forgets all\n", u.name, orDyn(name, c), c.Value, calleeShort(c), u.spec != nil && u.spec.Dyn != nil)
+	}
 	m.all = true
 	for g := range u.eng.GlobalGhosts {
 		if g != "$held" {
@@ -250,6 +302,63 @@ func (u *Unit) callMods(c *ssa.CallCommon, m *modSet, seen map[*ssa.Function]boo
 			u.fnMods(mc.Fn.(*ssa.Function), m, seen)
 		}
 	}
+}
+
+// localClosureTargets: for a call through a local variable (v := func(){...}; ...; v()), the closures the variable can hold -
+// nil unless every store to the variable, in the declaring function and in every closure capturing it, stores a closure.
+func localClosureTargets(c *ssa.CallCommon) []*ssa.Function {
+	ld, ok := c.Value.(*ssa.UnOp)
+	if !ok {
+		return nil
+	}
+	r := rootAlloc(ld.X)
+	if r == nil || r.Referrers() == nil {
+		return nil
+	}
+	var res []*ssa.Function
+	okAll := true
+	var scan func(addr ssa.Value, refs []ssa.Instruction, depth int)
+	scan = func(addr ssa.Value, refs []ssa.Instruction, depth int) {
+		if depth > 4 {
+			okAll = false
+			return
+		}
+		for _, ref := range refs {
+			switch in := ref.(type) {
+			case *ssa.Store:
+				if in.Addr != addr {
+					okAll = false // the address itself is stored somewhere
+					continue
+				}
+				if mc, ok := in.Val.(*ssa.MakeClosure); ok {
+					res = append(res, mc.Fn.(*ssa.Function))
+				} else if fn, ok := in.Val.(*ssa.Function); ok {
+					res = append(res, fn)
+				} else {
+					okAll = false
+				}
+			case *ssa.UnOp: // load
+			case *ssa.MakeClosure:
+				fn := in.Fn.(*ssa.Function)
+				for i, b := range in.Bindings {
+					if b == addr && i < len(fn.FreeVars) {
+						fv := fn.FreeVars[i]
+						if fv.Referrers() != nil {
+							scan(fv, *fv.Referrers(), depth+1)
+						}
+					}
+				}
+			case *ssa.DebugRef:
+			default:
+				okAll = false
+			}
+		}
+	}
+	scan(r, *r.Referrers(), 0)
+	if !okAll {
+		return nil
+	}
+	return res
 }
 
 // restoresGhost: the contract has an unconditional postcondition "$g == old($g)": the callee may change the ghost while it runs
@@ -270,6 +379,9 @@ func (u *Unit) specMods(spec *UnitSpec, m *modSet) {
 		if strings.HasPrefix(it, "$") && !restoresGhost(spec, it) {
 			m.ghosts[it] = true
 		}
+	}
+	if os.Getenv("VERIF_DEBUG") != "" && (len(spec.Preserves) > 0 || !spec.ModSet && !spec.Pure) {
+		fmt.Fprintf(os.Stderr, "mods-debug %s: callee %s forgets all but %v\n", u.name, spec.Name, spec.Preserves)
 	}
 	switch {
 	case len(spec.Preserves) > 0:
